@@ -9,7 +9,7 @@ Definition unchanged (w0 w : pworld) : Prop := pw_refs w = pw_refs w0 /\ pw_wt w
    PtAfterCheckout has no fallible operation in the real code (hook-only position). *)
 Definition known_c03 (pl : txplan) (p : point) : Prop :=
   (p_wt_merge pl <> None /\ (2 <= point_index p)%nat)
-  \/ (p_extmods pl <> None /\ (3 <= point_index p)%nat)
+  \/ (p_extmods pl <> None /\ (extmods_index pl <= point_index p)%nat)
   \/ p = PtAfterCheckout \/ p = PtCritAfterEdit \/ p = PtAfterCrit.
 
 (* the values the state ref may hold after a crash *)
